@@ -271,7 +271,9 @@ def doCanaryJump (ro : Rollout) (s : Sub) : Option (Sub × Bool) :=
   if s.nextIdx ≠ nextBatchIndex n s.curIdx ∧ s.nextIdx > 0 then
     if s.nextIdx > n then none else
     let nxt := ro.steps[(s.nextIdx - 1).toNat]?
-    let st := if (nxt.map (·.replicas)) = (cur.map (·.replicas)) then StepState.trafficRouting else StepState.init
+    -- `isStepUpgraded`: the shortcut to traffic routing needs the current step's pods to be ready already
+    let upgraded := s.state = .trafficRouting ∨ s.state = .metricsAnalysis ∨ s.state = .paused ∨ s.state = .ready ∨ s.state = .completed
+    let st := if (nxt.map (·.replicas)) = (cur.map (·.replicas)) ∧ upgraded then StepState.trafficRouting else StepState.init
     some ({ s with curIdx := s.nextIdx, nextIdx := nextBatchIndex n s.nextIdx, state := st, lastUpdate := .fresh }, true)
   else some (s, false)
 
@@ -295,18 +297,83 @@ inductive RunOut where
 
 def stepHasTraffic (st : Step) : Bool := st.weight.isSome
 
+/-- `StepUpgrade`: run `doCanaryUpgrade`; when done move on (with the partition-style full-replica bypass) -/
+def upgradeStep (ro : Rollout) (step : Step) (c : Ctx) : RunOut :=
+  let r := doCanaryUpgrade ro c.sub c.wl c.br
+  let c := { c with br := r.2.1, writes := c.writes ++ r.2.2 }
+  if r.1 then
+    let expected := scaledV step.replicas c.wl.replicas true
+    let st := if ro.style = .canary ∧ expected ≥ c.wl.replicas then StepState.metricsAnalysis else StepState.trafficRouting
+    .ok { c with sub := { c.sub with state := st, podHash := c.wl.canaryRev, lastUpdate := .fresh } } false
+  else .ok c false
+
+/-- result of a retry-style Manager call inside `BeforeStepUpgrade` -/
+def afterRetryCall (r : Option (Ctx × Bool × Bool)) (k : Ctx → RunOut) : RunOut :=
+  match r with
+  | none => .panic
+  | some (c, retry, err) =>
+    if err then .ok c true
+    else if retry then .ok { c with requeue := true } false
+    else k c
+
+/-- `BeforeStepUpgrade` -/
+def initStep (ro : Rollout) (step : Step) (c3 : Ctx) : RunOut :=
+  let enterUpgrade (c : Ctx) : RunOut :=
+    upgradeStep ro step { c with sub := { c.sub with state := .upgrade, lastUpdate := .fresh } }
+  if ro.style = .canary then
+    if ¬ stepHasTraffic step then .ok { c3 with sub := { c3.sub with state := .upgrade } } false
+    else
+      let expected := scaledV step.replicas c3.wl.replicas true
+      afterRetryCall (if expected ≥ c3.wl.replicas then callTM restoreStableService c3 else some (c3, false, false)) fun c4 =>
+        afterRetryCall (if c4.sub.curIdx = 1 ∧ ¬ ro.disableGen then callTM patchStableService c4 else some (c4, false, false)) enterUpgrade
+  else
+    afterRetryCall (if stepHasTraffic step ∧ c3.sub.curIdx = 1 then callTM patchStableService c3 else some (c3, false, false)) enterUpgrade
+
+/-- the per-sub-state switch of `runCanary` -/
+def stateStep (ro : Rollout) (step : Step) (c3 : Ctx) : RunOut :=
+  match c3.sub.state with
+  | .init => initStep ro step c3
+  | .upgrade => upgradeStep ro step c3
+  | .trafficRouting =>
+    match callTM doTrafficRouting c3 true with
+    | none => .panic
+    | some (c4, done, err) =>
+      if err then .ok c4 true
+      else if done then .ok { c4 with sub := { c4.sub with state := .metricsAnalysis, lastUpdate := .fresh }, requeue := true } false
+      else .ok { c4 with requeue := true } false
+  | .metricsAnalysis => .ok { c3 with sub := { c3.sub with state := .paused } } false
+  | .paused =>
+    match doCanaryPaused ro c3.sub step with
+    | none => .panic
+    | some (true, _) => .ok { c3 with sub := { c3.sub with state := .ready, lastUpdate := .fresh } } false
+    | some (false, rq) => .ok { c3 with requeue := c3.requeue || rq } false
+  | .ready =>
+    let n : Int := ro.steps.length
+    if n > c3.sub.curIdx then
+      .ok { c3 with sub := { c3.sub with curIdx := c3.sub.curIdx + 1, nextIdx := nextBatchIndex n (c3.sub.curIdx + 1),
+                                         state := .init, lastUpdate := .fresh } } false
+    else .ok { c3 with sub := { c3.sub with state := .completed, lastUpdate := .fresh } } false
+  | _ => .ok c3 false
+
+/-- a step without traffic first finalises the traffic routing of earlier steps -/
+def preStep (step : Step) (c2 : Ctx) : Option (Ctx × Bool × Bool) :=
+  if ¬ stepHasTraffic step then callTM finalisingTrafficRouting c2 true else some (c2, true, false)
+
+/-- syncBatchRelease: patch the rollout-id of an existing BatchRelease when it differs; fill the pod template hash -/
+def syncStep (c0 : Ctx) : Ctx :=
+  let c1 : Ctx := match c0.br with
+    | some b =>
+      if c0.sub.observedRolloutID ≠ b.rolloutID then
+        { c0 with br := some { b with rolloutID := c0.sub.observedRolloutID, hashSame := false }, writes := c0.writes ++ ["patchBRRolloutID"] }
+      else c0
+    | none => c0
+  { c1 with sub := if c1.sub.podHash = "" then { c1.sub with podHash := c1.wl.canaryRev } else c1.sub }
+
 /-- `runCanary` (both managers) -/
 def runCanary (c0 : Ctx) : RunOut :=
   let ro := c0.ro
-  -- syncBatchRelease: patch the rollout-id of an existing BatchRelease when it differs
-  let (c1, _) : Ctx × Bool := match c0.br with
-    | some b =>
-      if c0.sub.observedRolloutID ≠ b.rolloutID then
-        ({ c0 with br := some { b with rolloutID := c0.sub.observedRolloutID, hashSame := false }, writes := c0.writes ++ ["patchBRRolloutID"] }, true)
-      else (c0, false)
-    | none => (c0, false)
-  let s1 := if c1.sub.podHash = "" then { c1.sub with podHash := c1.wl.canaryRev } else c1.sub
-  match doCanaryJump ro s1 with
+  let c1 := syncStep c0
+  match doCanaryJump ro c1.sub with
   | none => .panic
   | some (s2, true) => .ok { c1 with sub := s2 } false
   | some (s2, false) =>
@@ -314,120 +381,63 @@ def runCanary (c0 : Ctx) : RunOut :=
     match ro.steps[(s2.curIdx - 1).toNat]? with
     | none => .panic
     | some step =>
-      -- a step without traffic first finalises the traffic routing of earlier steps
-      let pre : Option (Ctx × Bool × Bool) :=
-        if ¬ stepHasTraffic step then
-          match callTM finalisingTrafficRouting c2 true with
-          | none => none
-          | some (c, done, err) => some (c, done, err)
-        else some (c2, true, false)
-      match pre with
+      match preStep step c2 with
       | none => .panic
       | some (c3, done, err) =>
         if err then .ok c3 true
         else if ¬ done then .ok { c3 with requeue := true } false
-        else
-          let upgrade (c : Ctx) : RunOut :=
-            let (d, br', ws) := doCanaryUpgrade ro c.sub c.wl c.br
-            let c := { c with br := br', writes := c.writes ++ ws }
-            if d then
-              let expected := scaledV step.replicas c.wl.replicas true
-              let st := if ro.style = .canary ∧ expected ≥ c.wl.replicas then StepState.metricsAnalysis else StepState.trafficRouting
-              .ok { c with sub := { c.sub with state := st, podHash := c.wl.canaryRev, lastUpdate := .fresh } } false
-            else .ok c false
-          match c3.sub.state with
-          | .init =>
-            if ro.style = .canary then
-              if ¬ stepHasTraffic step then .ok { c3 with sub := { c3.sub with state := .upgrade } } false
-              else
-                let expected := scaledV step.replicas c3.wl.replicas true
-                let r1 : Option (Ctx × Bool × Bool) :=
-                  if expected ≥ c3.wl.replicas then callTM restoreStableService c3 else some (c3, false, false)
-                match r1 with
-                | none => .panic
-                | some (c4, retry, err) =>
-                  if err then .ok c4 true
-                  else if retry then .ok { c4 with requeue := true } false
-                  else
-                    let r2 : Option (Ctx × Bool × Bool) :=
-                      if c4.sub.curIdx = 1 ∧ ¬ ro.disableGen then callTM patchStableService c4 else some (c4, false, false)
-                    match r2 with
-                    | none => .panic
-                    | some (c5, retry, err) =>
-                      if err then .ok c5 true
-                      else if retry then .ok { c5 with requeue := true } false
-                      else upgrade { c5 with sub := { c5.sub with state := .upgrade, lastUpdate := .fresh } }
-            else
-              let r2 : Option (Ctx × Bool × Bool) :=
-                if stepHasTraffic step ∧ c3.sub.curIdx = 1 then callTM patchStableService c3 else some (c3, false, false)
-              match r2 with
-              | none => .panic
-              | some (c5, retry, err) =>
-                if err then .ok c5 true
-                else if retry then .ok { c5 with requeue := true } false
-                else upgrade { c5 with sub := { c5.sub with state := .upgrade, lastUpdate := .fresh } }
-          | .upgrade => upgrade c3
-          | .trafficRouting =>
-            match callTM doTrafficRouting c3 true with
-            | none => .panic
-            | some (c4, done, err) =>
-              if err then .ok c4 true
-              else if done then .ok { c4 with sub := { c4.sub with state := .metricsAnalysis, lastUpdate := .fresh }, requeue := true } false
-              else .ok { c4 with requeue := true } false
-          | .metricsAnalysis => .ok { c3 with sub := { c3.sub with state := .paused } } false
-          | .paused =>
-            match doCanaryPaused ro c3.sub step with
-            | none => .panic
-            | some (true, _) => .ok { c3 with sub := { c3.sub with state := .ready, lastUpdate := .fresh } } false
-            | some (false, rq) => .ok { c3 with requeue := c3.requeue || rq } false
-          | .ready =>
-            let n : Int := ro.steps.length
-            if n > c3.sub.curIdx then
-              .ok { c3 with sub := { c3.sub with curIdx := c3.sub.curIdx + 1, nextIdx := nextBatchIndex n (c3.sub.curIdx + 1),
-                                                 state := .init, lastUpdate := .fresh } } false
-            else .ok { c3 with sub := { c3.sub with state := .completed, lastUpdate := .fresh } } false
-          | _ => .ok c3 false
+        else stateStep ro step c3
+
+/-- `removeRolloutProgressingAnnotation` -/
+def stripAnno (c : Ctx) : Ctx :=
+  if c.wl.inProgressAnno then
+    { c with wl := { c.wl with inProgressAnno := false }, writes := c.writes ++ ["removeInProgressAnno"] } else c
+
+/-- an empty cursor is set to the first task -/
+def startCursor (c : Ctx) (next : FinStep) : Ctx :=
+  if c.sub.finStep = .empty then { c with sub := { c.sub with finStep := next, lastUpdate := .fresh } } else c
+
+/-- the tasks the managers' switch knows -/
+def finKnown (style : Style) (f : FinStep) : Bool :=
+  match f with
+  | .resumeWorkload | .releaseWorkloadControl | .routeTrafficToStable | .restoreStableService | .removeCanaryService => true
+  | .routeTrafficToNew => style = .blueGreen
+  | _ => false
+
+/-- run the task at the cursor: (context, retry, error) -/
+def finTask (c : Ctx) (waitReady : Bool) : Option (Ctx × Bool × Bool) :=
+  match c.sub.finStep with
+  | .resumeWorkload =>
+    let r := finalizingBatchRelease c.br waitReady
+    some ({ c with br := r.2.1, writes := c.writes ++ r.2.2 }, r.1, false)
+  | .releaseWorkloadControl =>
+    let r := removeBatchRelease c.br
+    some ({ c with br := r.2.1, writes := c.writes ++ r.2.2 }, r.1, false)
+  | .routeTrafficToStable => callTM restoreGateway c
+  | .restoreStableService => callTM restoreStableService c
+  | .removeCanaryService => callTM removeCanaryService c
+  | .routeTrafficToNew => callTM routeAllToNew c
+  | _ => some (c, true, false)
 
 /-- `doCanaryFinalising` (both managers): (done, error); `none` = panic -/
-def doFinalising (c : Ctx) (reason : Reason) (waitReady : Bool) : Option (Ctx × Bool × Bool) :=
-  -- removeRolloutProgressingAnnotation
-  let c := if c.wl.inProgressAnno then
-      { c with wl := { c.wl with inProgressAnno := false }, writes := c.writes ++ ["removeInProgressAnno"] } else c
+def doFinalising (c0 : Ctx) (reason : Reason) (waitReady : Bool) : Option (Ctx × Bool × Bool) :=
+  let c := stripAnno c0
   -- newTrafficRoutingContext is built before anything else (indexes steps[0])
   if c.ro.steps.isEmpty then none else
   let tasks := taskList c.ro.style reason
   -- nextStep is computed from the cursor as it was read
   let next := nextTask tasks c.sub.finStep
   if c.sub.finStep = .end_ then some (c, true, false) else
-  let c := if c.sub.finStep = .empty then { c with sub := { c.sub with finStep := next, lastUpdate := .fresh } } else c
-  let known : Bool := match c.sub.finStep with
-    | .resumeWorkload | .releaseWorkloadControl | .routeTrafficToStable | .restoreStableService | .removeCanaryService => true
-    | .routeTrafficToNew => c.ro.style = .blueGreen
-    | _ => false
-  if ¬ known then
+  let c1 := startCursor c next
+  if ¬ finKnown c1.ro.style c1.sub.finStep then
     -- unexpected cursor: start from the first task
-    some ({ c with sub := { c.sub with finStep := nextTask tasks .empty } }, false, false)
+    some ({ c1 with sub := { c1.sub with finStep := nextTask tasks .empty } }, false, false)
   else
-    let run : Option (Ctx × Bool × Bool) :=
-      match c.sub.finStep with
-      | .resumeWorkload =>
-        let (retry, br', ws) := finalizingBatchRelease c.br waitReady
-        some ({ c with br := br', writes := c.writes ++ ws }, retry, false)
-      | .releaseWorkloadControl =>
-        let (retry, br', ws) := removeBatchRelease c.br
-        some ({ c with br := br', writes := c.writes ++ ws }, retry, false)
-      | .routeTrafficToStable => callTM restoreGateway c
-      | .restoreStableService => callTM restoreStableService c
-      | .removeCanaryService => callTM removeCanaryService c
-      | .routeTrafficToNew => callTM routeAllToNew c
-      | _ => some (c, true, false)
-    match run with
+    match finTask c1 waitReady with
     | none => none
     | some (c', retry, err) =>
       if err ∨ retry then some (c', false, err)
-      else
-        let c'' := { c' with sub := { c'.sub with finStep := next, lastUpdate := .fresh } }
-        some (c'', next = .end_, false)
+      else some ({ c' with sub := { c'.sub with finStep := next, lastUpdate := .fresh } }, next = .end_, false)
 
 /-- `doProgressingReset` (continuous release, canary): (done, error); `none` = panic -/
 def doProgressingReset (c : Ctx) : Option (Ctx × Bool × Bool) :=
@@ -604,18 +614,23 @@ def calculateStatus (ro : Rollout) (wl : Option WL) : Option Rollout :=
       | .disabled => if ¬ ro.disabled then some { ns with phase := .healthy } else some ns
       | _ => some ns
 
+/-- `handleFinalizer`: the rollout after it, whether the object disappears, and the write issued -/
+def handleFinalizer (ro : Rollout) : Rollout × Bool × List String :=
+  if ro.deleting then
+    if ro.term = .completed ∧ ro.hasFinalizer then ({ ro with hasFinalizer := false }, true, ["removeFinalizer"])
+    else (ro, false, [])
+  else if ¬ ro.hasFinalizer then ({ ro with hasFinalizer := true }, false, ["addFinalizer"])
+  else (ro, false, [])
+
 /-- `RolloutReconciler.Reconcile` for an existing Rollout -/
 def reconcile (w : World) : Out :=
   let ro := w.ro
   let mk (w' : World) (gone rq err : Bool) (ws : List String) : Out :=
     .val { w := w', roGone := gone, requeue := rq, err := err, writes := ws }
-  -- handleFinalizer
-  let (ro1, gone, ws0) : Rollout × Bool × List String :=
-    if ro.deleting then
-      if ro.term = .completed ∧ ro.hasFinalizer then ({ ro with hasFinalizer := false }, true, ["removeFinalizer"])
-      else (ro, false, [])
-    else if ¬ ro.hasFinalizer then ({ ro with hasFinalizer := true }, false, ["addFinalizer"])
-    else (ro, false, [])
+  let hf := handleFinalizer ro
+  let ro1 := hf.1
+  let gone := hf.2.1
+  let ws0 := hf.2.2
   match calculateStatus ro1 w.wl with
   | none => mk { w with ro := ro1 } gone true false ws0
   | some ns =>
